@@ -405,8 +405,8 @@ func c05Forms(v c05Val, tier int) []c05Arg {
 			c05Arg{txt: "Unsafe(Safe(" + v.txt + "))", arg: Unsafe(Safe(v.v)), ref: v.v, whole: true, kind: v.kind},
 			c05Arg{txt: "reflect.ValueOf(" + v.txt + ")", arg: reflect.ValueOf(v.v), ref: reflect.ValueOf(v.v), kind: v.kind},
 			c05Arg{txt: "Safe(reflect.ValueOf(" + v.txt + "))", arg: Safe(reflect.ValueOf(v.v)), ref: reflect.ValueOf(v.v), safe: true, kind: v.kind},
-			c05Arg{txt: "reflect.ValueOf(Safe(" + v.txt + "))", arg: reflect.ValueOf(Safe(v.v)), ref: reflect.ValueOf(v.v), safe: true, kind: v.kind},
-			c05Arg{txt: "reflect.ValueOf(Unsafe(" + v.txt + "))", arg: reflect.ValueOf(Unsafe(v.v)), ref: reflect.ValueOf(v.v), whole: true, kind: v.kind},
+			c05Arg{txt: "reflect.ValueOf(Safe(" + v.txt + "))", arg: reflect.ValueOf(Safe(v.v)), ref: v.v /* fmt reaches the wrapper's Format method, which prints the wrapped value as an operand of its own */, safe: true, kind: v.kind},
+			c05Arg{txt: "reflect.ValueOf(Unsafe(" + v.txt + "))", arg: reflect.ValueOf(Unsafe(v.v)), ref: v.v, whole: true, kind: v.kind},
 		)
 	}
 	return fs
